@@ -164,15 +164,20 @@ def rule_r3(p, res):
     need("v" in st_ and "y" in st_ and "coefficients" in st_, "C07.R3: ThinPlateSplines._build_coefficients no longer stores v, y and coefficients")
     v_ok = norm(st_["v"][1]) == "self.target.points.T.copy()"
     yv = norm(st_["y"][1])
-    y_ok = yv.startswith(("np.hstack([", "np.concatenate([")) and ("self.v" in yv or "self.target.points.T.copy()" in yv) and "np.zeros([2, 3])" in yv
+    y_ok = yv.startswith(("np.hstack(", "np.concatenate(")) and ("self.v" in yv or "self.target.points.T.copy()" in yv) and ("np.zeros([2, 3])" in yv or "np.zeros((2, 3))" in yv)
     cv = st_["coefficients"][1]
-    rhs = cv.args[0] if isinstance(cv, ast.Call) and isinstance(cv.func, ast.Attribute) and cv.func.attr == "dot" and cv.args else None
+    rhs = None
+    if isinstance(cv, ast.Call) and isinstance(cv.func, ast.Attribute) and cv.func.attr == "dot" and cv.args:
+        rhs = cv.args[-1]  # a.dot(b) and np.dot(a, b): the right factor is the last argument
     c_ok = rhs is not None and norm(rhs) in ("self.y.T", yv + ".T") and any((dotted(k.func) or "") == "np.linalg.svd" and norm(k.args[0]) == "self.l" for k in calls_in(tp.node) if k.args)
     r.check(v_ok and y_ok and c_ok, tp, tp.node, "TPS coefficients solve L c = [target; 0]: v = target points (transposed copy), y = [v | 0], coefficients = pinv(L) y^T "
             "(found v=`%s`, y=`%s`, right-hand side `%s`)" % (norm(st_["v"][1])[:40], yv[:50], norm(rhs)[:30] if rhs is not None else None))
     ti = p.own_method("ThinPlateSplines", "__init__")
     s = norm(ti.node)
-    r.check("self.k = self.kernel.apply(self.source.points)" in s and "kernel = R2LogR2RBF(source.points)" in s, ti, ti.node, "the TPS system matrix is built from the kernel on the source points")
+    di = Defs(ti.node)
+    kst = [expand(v_, di) for a_, s_, v_ in self_attr_stores(ti.node) if a_ == "k"]
+    k_ok = len(kst) == 1 and norm(kst[0]) in ("self.kernel.apply(self.source.points)", "kernel.apply(self.source.points)", "kernel.apply(source.points)", "self.kernel.apply(source.points)")
+    r.check(k_ok and "kernel = R2LogR2RBF(source.points)" in s, ti, ti.node, "the TPS system matrix is built from the kernel on the source points")
 
 
 def rule_r4(p, res):
@@ -188,9 +193,19 @@ def rule_r4(p, res):
     r.check(s == want, ap, ap.node, "the image of a point is ti + alpha tij + beta tik of *its own* triangle (found `%s`)" % s, {"apply": s})
     rb = p.own_method("AbstractPWA", "_rebuild_target_vectors")
     r.instance(rb)
-    s = norm(rb.node)
-    r.check("t = self.target.points[self.trilist]" in s and "self.tij, self.tik = (t[:, 1] - t[:, 0], t[:, 2] - t[:, 0])" in s and "self.ti = t[:, 0]" in s, rb, rb.node,
-            "target triangle vectors must come from the target points indexed by the (source) triangle list")
+    drb = Defs(rb.node)
+    got = {}
+    for n_ in walk_own(rb.node):
+        if isinstance(n_, ast.Assign) and len(n_.targets) == 1:
+            t_ = n_.targets[0]
+            pairs = list(zip(t_.elts, n_.value.elts)) if isinstance(t_, ast.Tuple) and isinstance(n_.value, ast.Tuple) and len(t_.elts) == len(n_.value.elts) else [(t_, n_.value)]
+            for a_, v_ in pairs:
+                if isinstance(a_, ast.Attribute) and norm(a_.value) == "self" and a_.attr in ("ti", "tij", "tik"):
+                    got[a_.attr] = str(norm(expand(v_, drb)))
+    T = "self.target.points[self.trilist]"
+    want_t = {"ti": "%s[:, 0]" % T, "tij": "%s[:, 1] - %s[:, 0]" % (T, T), "tik": "%s[:, 2] - %s[:, 0]" % (T, T)}
+    r.check(got == want_t, rb, rb.node, "target triangle vectors must come from the target points indexed by the (source) triangle list: ti = t[:, 0], tij = t[:, 1] - t[:, 0], "
+            "tik = t[:, 2] - t[:, 0] with t = target.points[trilist] (found %s)" % got)
     tl = p.own_method("AbstractPWA", "trilist")
     r.check(norm(returns_of(tl.node)[0].value) == "self.source.trilist", tl, tl.node, "both sides share the source's triangle list")
     py = p.own_method("PythonPWA", "__init__")
